@@ -220,12 +220,13 @@ def stepOutState (r : Run) (l : Loc) (err : Bool) : Run :=
     if d.breakOnError && err then
       let (is, d) := match d.is with
         | none => (freshState l, { d with breakOnStart := false })
-        | some is => ({ is with pos := l, running := false }, d)
+        | some is => ({ is with pos := l }, d)
       if is.err then
-        -- the state is marked "not running" but the thread does not wait
+        -- an error is already recorded (it is passing through an outer call): no second stop, and the
+        -- thread is NOT marked as suspended
         { r with d := { d with is := some is } }
       else
-        park { r with d := { d with is := some { is with err := true } } } l
+        park { r with d := { d with is := some { is with err := true, running := false } } } l
     else
       match d.is with
       | none => { r with d := d }
@@ -298,7 +299,9 @@ structure State where
 inductive Event where
   /-- thread: `Lock; running = false; Unlock` (or publishing a fresh state with `running = false`) -/
   | mark
-  /-- thread: `VisitStepOutState` with an error already recorded: `running = false` without waiting -/
+  /-- thread: `running = false` published WITHOUT waiting. The current code has no such step any more
+  (fix "no suspended flag without wait"); the event stays in the system, so the handshake theorems
+  hold for a superset of the code's behaviours. -/
   | phantom
   /-- thread: `cond.L.Lock()` at the head of `waitForContinue` -/
   | tlock
